@@ -161,6 +161,17 @@ fn build_dispatch(cfg: &[&str], w: BoxMakeWriter) -> Dispatch {
         };
     }
     let base = tracing_subscriber::fmt::subscriber().with_writer(w).without_time().with_ansi(false);
+    // `O1`: the display options are set BEFORE the format is selected (the selection carries them over: `compact()` switches the
+    // target off, `pretty()` switches file and line on, everything else — the level in particular — is kept)
+    if flag('O') {
+        return match cfg[0] {
+            "full" => Dispatch::new(reg.with(opts!(base))),
+            "compact" => Dispatch::new(reg.with(opts!(base).compact())),
+            "pretty" => Dispatch::new(reg.with(opts!(base).pretty())),
+            "json" => Dispatch::new(reg.with(opts!(base).json().with_current_span(flag('c')).with_span_list(flag('S')).flatten_event(flag('F')))),
+            other => panic!("bad format {}", other),
+        };
+    }
     match cfg[0] {
         "full" => Dispatch::new(reg.with(opts!(base))),
         "compact" => Dispatch::new(reg.with(opts!(base.compact()))),
